@@ -105,6 +105,24 @@ def main(tier):
                             res[name] = bool(o[1]) if o[0] == "ok" else False
                             raised = raised or (o[2] if o[0] != "ok" else "")
                         events.append(dict(op="Order", cls="Scalar", call="%r %s vs %r %s (close amounts)" % (x, p_, y, q_), sign=sign, raised=raised, **res))
+            # (2c) amounts in ONE unit that differ in the last places (no conversion takes part: the order of the two doubles is the physical
+            # order, exactly): a tolerance in some of the six operators makes them incoherent
+            import math
+            u1_ = rng.choice(us)
+            for x in (1.0, -250.0, 3e-7):
+                for y in (math.nextafter(x, math.inf), x * (1.0 + 5e-10), x * (1.0 - 3e-12)):
+                    for X_, Y_ in ((x, y), (y, x)):
+                        sign = -1 if X_ < Y_ else 1
+                        for cls in ("Scalar", "FractionScalar"):
+                            A = Scalar(cat, X_, u1_) if cls == "Scalar" else FractionScalar(cat, value=X_, unit=u1_)
+                            B = Scalar(cat, Y_, u1_) if cls == "Scalar" else FractionScalar(cat, value=Y_, unit=u1_)
+                            res = {}
+                            raised = ""
+                            for name, op in OPS:
+                                o = P.outcome(op, A, B)
+                                res[name] = bool(o[1]) if o[0] == "ok" else False
+                                raised = raised or (o[2] if o[0] != "ok" else "")
+                            events.append(dict(op="Order", cls=cls, call="%r %s vs %r %s (one unit, last places)" % (X_, u1_, Y_, u1_), sign=sign, raised=raised, **res))
             # across quantity types
             other = rng.choice([q for q in qts if q != qt])
             A, B = Scalar(1.0, us[0]), Scalar(1.0, units_of[other][0])
@@ -157,6 +175,9 @@ def main(tier):
                 Curve(Array([1.0, 2.0, 3.0], "m"), Array([0.0, 1.0, 2.0], "s")),
                 UnitSystem("a", "A", {"length": "m"}), UnitSystem("a", "A", {"length": "m"}), UnitSystem("b", "B", {}),
                 UnitSystem("c", "C", {"length": "m", "time": "s"}), UnitSystem("c", "C", {"time": "s", "length": "m"}),
+                # the same id and caption with a part of the mapping, another unit, no mapping, another read-only flag
+                UnitSystem("c", "C", {"length": "m"}), UnitSystem("c", "C", {}), UnitSystem("c", "C", {"length": "cm", "time": "s"}),
+                UnitSystem("c", "C", {"length": "m", "time": "s"}, read_only=True), UnitSystem("c", "C2", {"length": "m", "time": "s"}),
                 None, "m", 1, 1.0, (1.0, "m"), 0.5, 10 ** 400, -(10 ** 400), 2 ** 70]
         for i, a in enumerate(objs):
             for j, b in enumerate(objs):
@@ -182,4 +203,4 @@ def main(tier):
                         "unrelated right-hand sides: None, str, int, float, tuple (numpy arrays own ndarray == x)"]
     return rep.finish(rule="(1) 11 x 11 pool matrix predicted by TLC x 4 order operators x Scalar/FractionScalar; (2) seeded unit pairs of every quantity "
                            "type x two amounts, six operator results judged by TLC against the measured sign of the base-unit difference; ordering across "
-                           "quantity types; (3) ==/!= over all ordered pairs of %d value objects / unrelated objects, judged by TLC" % 57)
+                           "quantity types; (3) ==/!= over all ordered pairs of %d value objects / unrelated objects, judged by TLC" % 62)
